@@ -37,7 +37,8 @@ class Ctx:
             path = self.bins.get("lib-" + profile)
             if not path:
                 raise HarnessError("op-server for profile %s was not built" % profile)
-            s = core.OpServer(path)
+            # each worker gives its servers another ambient environment: nothing in the properties may depend on it
+            s = core.OpServer(path, core.ambient_env(os.getpid() + (0 if profile == "dev" else 1)))
             self.servers[profile] = s
         return s
 
